@@ -4579,6 +4579,17 @@ class NameCheckVisitor(node_visitor.ReplacingNodeVisitor):
 
         self._generic_visit_list(node.body)
 
+        if (
+            node.type is not None
+            and node.name is not None
+            and self.scopes.scope_type() == ScopeType.function_scope
+        ):
+            # Python unbinds the name when the handler is left (as if the body were
+            # wrapped in try/finally: del name), however it is left.
+            self.scopes.set(
+                node.name, UNINITIALIZED_VALUE, (node, "unbound"), self.state
+            )
+
     def _extract_exception_types(
         self, typ: Value, node: ast.AST, is_try_star: bool = False
     ) -> list[tuple[bool, Value]]:
